@@ -3,7 +3,7 @@
    Model/Mailbox.v; the header map in Model/Headers.v. *)
 From Coq Require Import ZArith.
 From Coq Require Import Strings.String.
-From LV Require Import Base.Str Model.Date Proofs.DateProofs.
+From LV Require Import Base.Str Model.Date Proofs.DateProofs Model.TypedHeaders Proofs.TypedHeadersProofs.
 From LV Require Import Base.Bytes Base.Utf8 Base.Res Model.Address Model.Mailbox Model.HeaderEnc Model.Headers
   Proofs.MailboxProofs Proofs.MailboxListProofs Proofs.MailboxNamedListProofs Proofs.HeadersProofs.
 
@@ -116,6 +116,17 @@ Example C17_date_example :
   of_secs 253402300800 = None.
 Proof. vm_compute. repeat split. Qed.
 
+(* MIME-Version: every pair of u8 (all 65 536, by evaluation inside Coq over the model of Display for u8 and of
+   u8::from_str) is written as major "." minor and read back; Content-Transfer-Encoding: the five values are read
+   back, and nothing but their five spellings is accepted. *)
+Theorem C17_mime_version_roundtrip : forall a b : N, (a < 256)%N -> (b < 256)%N ->
+  mime_version_parse (mime_version_display a b) = Some (a, b).
+Proof. exact mime_version_roundtrip. Qed.
+Theorem C17_cte_roundtrip : forall e : cte, cte_parse (cte_display e) = Some e.
+Proof. exact cte_roundtrip. Qed.
+Theorem C17_cte_parse_exact : forall (s : bytes) (e : cte), cte_parse s = Some e -> s = cte_display e.
+Proof. exact cte_parse_inv. Qed.
+
 Print Assumptions C17_mailbox_rt_noname.
 Print Assumptions C17_mailbox_rt_plain.
 Print Assumptions C17_mailbox_rt_quoted.
@@ -128,3 +139,6 @@ Print Assumptions C17_mailboxes_rt_named.
 Print Assumptions C17_trim_ends.
 Print Assumptions C17_date_roundtrip.
 Print Assumptions C17_date_fields.
+Print Assumptions C17_mime_version_roundtrip.
+Print Assumptions C17_cte_roundtrip.
+Print Assumptions C17_cte_parse_exact.
